@@ -122,7 +122,8 @@ def detect(i, props):
         first = [l.strip() for l in r.stdout.splitlines() if 'clause=' in l][:2]
         res[p] = {'exit': r.returncode, 'wall_s': round(time.time() - t0, 1), 'first_violation': first,
                   'summary': r.stdout.splitlines()[0][:200] if r.stdout else '', 'tier': os.environ.get('SEED_TIER', 'quick'),
-                  'seed': int(os.environ.get('VERIF_SEED', '0') or 0)}
+                  'seed': int(os.environ.get('VERIF_SEED', '0') or 0),
+                  'runs_override': os.environ.get('VERIF_RUNS') or None}
         print(i, p, 'exit', r.returncode, first[:1])
     m['detect'] = res
     save_meta(i, m)
@@ -133,7 +134,29 @@ def clean(i):
     shutil.rmtree(scratch(i), ignore_errors=True)
 
 
+def table():
+    rows = []
+    for i in sorted(os.listdir(os.path.join(VERIF, 'seeded'))):
+        if not os.path.exists(meta_path(i)):
+            continue
+        m = load_meta(i)
+        v = m.get('verify', {})
+        det = m.get('detect', {})
+        d = '; '.join('%s: %s%s' % (p, {0: 'missed', 1: 'DETECTED', 2: 'harness error'}.get(r['exit'], r['exit']),
+                                    (' (%s, %s' % (r.get('tier', 'quick'), (r['first_violation'][0].split(':')[0].replace('clause=', '') if r['first_violation'] else '')) + ')') if r['exit'] == 1 else '')
+                      for p, r in det.items())
+        rows.append('| %s | %s | %s | %s | demo %s/%s, tests %s | %s |' % (
+            i, m.get('property'), (m.get('change') or '').replace('|', '/'), (m.get('needs_to_manifest') or '').replace('|', '/'),
+            v.get('demo_exit_unpatched'), v.get('demo_exit_patched'), v.get('tests_passed', 'n/r'), d))
+    print('| id | property | change | needs | verified (demo exit unpatched/patched, tests passed) | checks |')
+    print('|---|---|---|---|---|---|')
+    print('\n'.join(rows))
+
+
 if __name__ == '__main__':
+    if sys.argv[1] == 'table':
+        table()
+        sys.exit(0)
     cmd, i = sys.argv[1], sys.argv[2]
     if cmd == 'collect':
         collect(i, sys.argv[3] if len(sys.argv) > 3 else None)
